@@ -38,13 +38,13 @@ theorem pump_chain (d : Dev) (s : S) (h : CInv d s) (hl : s.link = true) (hd : s
     (hne : s.stage ≠ .ext) (hnu : s.stage ≠ .up) :
     CInv d (pump d s) ∧ (pump d s).link = true ∧ (pump d s).dead = false ∧ (pump d s).armed = false ∧
       ((pump d s).stage = .up ∨ pot d (pump d s) < pot d s) := by
-  obtain ⟨h1, h2, h3, h4, h5, h6, h7, h8, h9, h10, h11, h12⟩ := h
+  obtain ⟨h1, h2, h3, h4, h5, h6, h7, h8, h9, h10, h11, h12, h13, h15, h14⟩ := h
   have h2' := h2 hl hd
   have h3' := h3 hl hd
   have h4' := h4 hne
   have h5' := h5 hnu
   have h7' := h7 hl ⟨hne, hnu⟩
-  obtain ⟨st, link, initCb, inq, armed, stage, upd, exts, parToc, vals, isUpdated, connTs, logGot, extGot, dead, fa, ff, cl, fx⟩ := s
+  obtain ⟨st, link, initCb, inq, armed, stage, upd, exts, parToc, vals, isUpdated, connTs, logGot, extGot, dead, fa, ff, fu, fe, cl, fx⟩ := s
   obtain ⟨q, locked, pat⟩ := upd
   simp only at *
   subst hl hd ha h4' h7' h9
@@ -68,12 +68,12 @@ theorem pump_chain (d : Dev) (s : S) (h : CInv d s) (hl : s.link = true) (hd : s
 theorem pump_ext (d : Dev) (s : S) (h : CInv d s) (hl : s.link = true) (hd : s.dead = false) (ha : s.armed = false) (hst : s.stage = .ext) :
     CInv d (pump d s) ∧ (pump d s).link = true ∧ (pump d s).dead = false ∧ (pump d s).armed = false ∧
       ((pump d s).stage = .up ∨ pot d (pump d s) < pot d s) := by
-  obtain ⟨h1, h2, h3, h4, h5, h6, h7, h8, h9, h10, h11, h12⟩ := h
+  obtain ⟨h1, h2, h3, h4, h5, h6, h7, h8, h9, h10, h11, h12, h13, h15, h14⟩ := h
   have h2' := h2 hl hd
   have h3' := h3 hl hd
   have h5' := h5 (by simp [hst])
   have h6' := h6 hl (by simp [hst])
-  obtain ⟨st, link, initCb, inq, armed, stage, upd, exts, parToc, vals, isUpdated, connTs, logGot, extGot, dead, fa, ff, cl, fx⟩ := s
+  obtain ⟨st, link, initCb, inq, armed, stage, upd, exts, parToc, vals, isUpdated, connTs, logGot, extGot, dead, fa, ff, fu, fe, cl, fx⟩ := s
   obtain ⟨q, locked, pat⟩ := upd
   simp only at *
   subst hl hd ha hst h6' h9
